@@ -201,9 +201,9 @@ def _proccessContainerTierInput(sectionData: str, name: str):
             continue
         ii = masterIndexList.index(val)  # Index of the index
         try:
-            subList.append(masterIndexList[ii + 1] - 1)
+            subList.append(masterIndexList[ii + 1])
         except IndexError:
-            subList.append(-1)
+            subList.append(len(sectionData))
 
     # Build the tier structure
     kct = KlattContainerTier(name)
